@@ -49,8 +49,6 @@ PARTIAL = [
     "driver forests put `next` of a stream fold in its own body, directly or inside par branches (any nesting); a `next` of an OUTER "
     "stream fold executed inside an inner stream fold's body, or executed twice in one iteration (inside an inner scalar fold), is not "
     "covered by the forests (the validator allows the first syntactically; generators do not produce either)",
-    "the flattening of a driver forest into API calls (`ops_dts`) is compared with `drive` by computation on every generated forest "
-    "(wt_drive, wt_model), not by a theorem",
     "the reader's view (lens_convolution groups lore entries by the generation at value_pos; value positions pairwise distinct) is "
     "measured (distribution: reader_grouping_differs) but is not part of C10's text and not an oracle",
 ]
@@ -114,7 +112,7 @@ def tree_case(rng):
 
 
 def gen_cases(rng, tier, escalate=False):
-    k = {"quick": 1, "thorough": 8}[tier] * (3 if escalate else 1)
+    k = {"quick": 1, "thorough": 6}[tier] * (3 if escalate else 1)
     cases = []
     for s in FIXED_SCRIPTS:
         cases.append(history_case(rng, script=s, n_ops=14))
